@@ -18,7 +18,7 @@ def rcg(src, src_enc, **opts):
        raise ValueError("Not supported for RCG format")
     with io.open('%s.lex' % src) as lexfile:
         for line in lexfile:
-            sp = line.strip().split()
+            sp = misc.split_fields(line)
             word = sp[0]
             for label, count in misc.grouper(2, sp[1:]):
                 if not word in lexicon:
@@ -27,7 +27,7 @@ def rcg(src, src_enc, **opts):
                     lexicon[word].update([label])
     with io.open('%s.rcg' % src) as gramfile:
         for line in gramfile:
-            line = line.strip().split()
+            line = misc.split_fields(line)
             count = int(line[0].split(':')[1])
             func = []
             raw_lin = []
